@@ -1,4 +1,5 @@
 import HappyProofs.C12.PxFut
+import HappyProofs.C12.PxPromise
 import HappyProofs.C12.LockProof
 import HappyProofs.C12.MPWitness
 import HappyProofs.C12.MPCommit
@@ -6,6 +7,7 @@ import HappyProofs.C12.MPLeader
 import HappyProofs.C12.MPDeposed
 import HappyProofs.C12.ElWitness
 import HappyProofs.C12.ElStale
+import HappyProofs.C12.ElStaticRun
 import HappyModel.C12.Spec
 /-!
 # C12 — property theorems (single-decree Paxos, Flexible quorums)
